@@ -8,7 +8,9 @@ mod inproc;
 mod model;
 mod props;
 mod ptext;
+mod push;
 mod ws;
+mod wsgen;
 
 use engine::*;
 use std::path::{Path, PathBuf};
@@ -24,6 +26,8 @@ macro_rules! dispatch {
             "C02" => $f(&props::place::C02, $($arg),*),
             "C03" => $f(&props::place::C03, $($arg),*),
             "C04" => $f(&props::c04::C04, $($arg),*),
+            "C05" => $f(&props::cli::C05, $($arg),*),
+            "C13" => $f(&props::cli::C13, $($arg),*),
             "C20" => $f(&props::place::C20, $($arg),*),
             "C11" => $f(&props::c11::C11, $($arg),*),
             other => {
